@@ -632,8 +632,9 @@ def orchestrate(pid, tier, seed, replay):
         if hasattr(mod, "evidence_extra"):
             ev["coverage"].update(mod.evidence_extra(tier))
         validate_evidence(ev)
-        (VERIF / "evidence").mkdir(exist_ok=True)
-        (VERIF / "evidence" / f"{pid}.json").write_text(json.dumps(ev, indent=1, sort_keys=True) + "\n")
+        evdir = pathlib.Path(os.environ.get("VERIF_EVIDENCE_DIR", str(VERIF / "evidence")))
+        evdir.mkdir(parents=True, exist_ok=True)
+        (evdir / f"{pid}.json").write_text(json.dumps(ev, indent=1, sort_keys=True) + "\n")
 
         note = " (budget hit: inconclusive for the skipped part)" if acc.budget_skipped else ""
         print(
